@@ -35,6 +35,8 @@ type c25Scenario struct {
 	Rules  []ruleSpec `json:"rules"`
 	Steps  []stepSpec `json:"steps"`
 	Passes []passSpec `json:"passes"`
+	// Relocated: the reconciler is handed its listing / head timestamps in a non-UTC location (same instants)
+	Relocated bool `json:"relocated,omitempty"`
 }
 
 var (
